@@ -28,16 +28,9 @@ from ndn.security.validator.digest_validator import sha256_digest_checker, param
 from Cryptodome.Hash import SHA256, HMAC
 from Cryptodome.Signature import DSS, pkcs1_15, eddsa
 
+INTEREST_ORDER = [7, 33, 18, 30, 10, 12, 34, 36, 44, 46]
 UNK_NC = b'\xf0\x02\xab\xcd'      # unknown non-critical element (even type >= 32)
 UNK_C = b'\xf1\x02\xab\xcd'       # unknown critical element
-
-
-def run_sync(coro):
-    try:
-        coro.send(None)
-    except StopIteration as e:
-        return e.value
-    raise MachineryError('validator suspended')
 
 
 def signed(cfg):
@@ -52,70 +45,8 @@ def parse(cfg, wire):
     return parse_interest(wire) if cfg['kind'] == 'interest' else parse_data(wire)
 
 
-class Verifier:
-    """The matching verifier(s) for a built packet: library functions (what the property names) and an
-    independent PyCryptodome call on explicit bytes."""
-
-    def __init__(self, cfg, b, pool):
-        self.kind = k = cfg['sg']['kind']
-        self.pool = pool
-        self.kl = b.kl
-        self.has = k in ('digest', 'digestI', 'hmac', 'rsa', 'ecdsa', 'ed25519') or (k == 'syn' and cfg['sg']['a'] >= 16)
-        self.syn_a = cfg['sg']['a']
-        self.ec = pool.ec.get(cfg['sg']['r'], (None, None))[1] if k == 'ecdsa' else None
-
-    def lib(self, name, sp):
-        """-> list of (verifier-name, accepted)"""
-        k = self.kind
-        out = []
-        try:
-            if k in ('digest', 'digestI'):
-                ok = bool(sp.signature_info) and sp.signature_info.signature_type == SignatureType.DIGEST_SHA256 \
-                    and run_sync(sha256_digest_checker(name, sp))
-                out.append(('sha256_digest_checker', bool(ok)))
-            elif k == 'hmac':
-                out.append(('verify_hmac', bool(verify_hmac(self.pool.hmac, sp))))
-                out.append(('HmacChecker', bool(run_sync(HmacChecker.from_key(self.kl, self.pool.hmac)(name, sp)))))
-            elif k == 'rsa':
-                out.append(('verify_rsa', bool(verify_rsa(self.pool.rsa[1], sp))))
-                out.append(('RsaChecker', bool(run_sync(RsaChecker.from_key(self.kl, self.pool.pub_der('rsa'))(name, sp)))))
-            elif k == 'ecdsa':
-                out.append(('verify_ecdsa', bool(verify_ecdsa(self.ec, sp))))
-                out.append(('EccChecker', bool(run_sync(EccChecker.from_key(self.kl, self.ec.export_key(format='DER'))(name, sp)))))
-            elif k == 'ed25519':
-                out.append(('verify_ed25519', bool(verify_ed25519(self.pool.ed[1], sp))))
-                out.append(('Ed25519Checker', bool(run_sync(Ed25519Checker.from_key(self.kl, self.pool.pub_der('ed25519'))(name, sp)))))
-            elif k == 'syn':
-                cov = b''.join(bytes(c) for c in sp.signature_covered_part)
-                h = hashlib.sha256(cov).digest()
-                out.append(('syn-verifier', bytes(sp.signature_value_buf or b'') == (h * (self.syn_a // 32 + 1))[:self.syn_a]))
-        except Exception:  # noqa: a verifier that raises has not accepted
-            out.append(('raised', False))
-        return out
-
-    def accepted(self, name, sp):
-        return [n for n, ok in self.lib(name, sp) if ok]
-
-    def independent(self, covered, sig):
-        """PyCryptodome directly on explicit bytes."""
-        k = self.kind
-        try:
-            if k in ('digest', 'digestI'):
-                return hashlib.sha256(covered).digest() == sig
-            if k == 'hmac':
-                return HMAC.new(self.pool.hmac, covered, digestmod=SHA256).digest() == sig
-            if k == 'rsa':
-                pkcs1_15.new(self.pool.rsa[1]).verify(SHA256.new(covered), sig)
-                return True
-            if k == 'ecdsa':
-                DSS.new(self.ec, 'fips-186-3', 'der').verify(SHA256.new(covered), sig)
-                return True
-            if k == 'ed25519':
-                eddsa.new(self.pool.ed[1], 'rfc8032').verify(covered, sig)
-                return True
-        except ValueError:
-            return False
-        return True
+run_sync = pk.run_sync
+Verifier = pk.Verifier
 
 
 def digest_recompute(wire):
@@ -130,6 +61,13 @@ def digest_recompute(wire):
         names = [k for k in kids if k[0] == 7]
         apps = [k for k in kids if k[0] == 0x24]
         if len(names) != 1 or not apps or kids[0][0] != 7:
+            return 'na'
+        # Only when every recognised element occurs once and in the order of the packet format: with a
+        # recognised element out of order (e.g. a byte changed into the type of InterestSignatureValue in front
+        # of ApplicationParameters) a decoder may legitimately ignore the later ones, and then "the bytes from
+        # ApplicationParameters to the end" is not defined - the statement is not applied there.
+        idx = [INTEREST_ORDER.index(k[0]) for k in kids if k[0] in INTEREST_ORDER]
+        if any(a >= b for a, b in zip(idx, idx[1:])):
             return 'na'
         comps = st.read_elements(wire, names[0][2], names[0][3])
         pds = [c for c in comps if c[0] == pk.T_PD]
@@ -359,8 +297,8 @@ def edits(ctx, cfg, exp, b, ver, rep_base):
 def tamper_budget(ctx):
     """How many small configurations per (kind, signer) get the exhaustive byte-level treatment."""
     if ctx.quick:
-        return {'ecdsa': 3, 'ed25519': 3, 'rsa': 2, 'hmac': 8, 'digest': 6, 'digestI': 2, 'syn': 3, 'none': 6, 'null': 1}
-    return {'ecdsa': 30, 'ed25519': 25, 'rsa': 15, 'hmac': 120, 'digest': 60, 'digestI': 12, 'syn': 20, 'none': 60, 'null': 4}
+        return {'ecdsa': 2, 'ed25519': 2, 'rsa': 2, 'hmac': 6, 'digest': 4, 'digestI': 2, 'syn': 2, 'none': 4, 'null': 1}
+    return {'ecdsa': 20, 'ed25519': 15, 'rsa': 10, 'hmac': 80, 'digest': 40, 'digestI': 10, 'syn': 15, 'none': 40, 'null': 3}
 
 
 def run(ctx):
@@ -377,7 +315,7 @@ def run(ctx):
     if 'A' in ctx.stages:
         cfgp = os.path.join(tlc.BUILD, 'NdnPacketsMC_c02_%s.cfg' % ctx.tier)
         tlc.write_cfg(cfgp, constants={'Scale': scale}, invariants=['TypeOK', 'InvC02', 'InvRefused'])
-        r = tlc.run('NdnPacketsMC', cfgp, workers=ctx.pick(4, 16))
+        r = tlc.run('NdnPacketsMC', cfgp, workers=ctx.pick(4, int(os.environ.get('VERIF_WORKERS', '16'))))
         ctx.add_tlc('NdnPacketsMC (C02 laws) Scale=%d' % scale, r)
         if r.violated:
             ctx.violation('C02/spec/%s' % r.violated, 'TLC: %s violated in NdnPacketsMC' % r.violated, {'trace': r.errtrace})
@@ -401,9 +339,15 @@ def run(ctx):
         for ln in todo:
             cfg, exp = ln['cfg'], ln['exp']
             b = pk.build(cfg, ctx.rng, pool)
-            rep = {'kind': 'cfg', 'cfg': cfg}
-            if b.exc is not None or pk.layout(b.wire) != pk.exp_layout(exp):
-                ctx.note('B: skipped a configuration whose wire does not have the reference layout (C01 reports it)')
+            rep = {'kind': 'cfg', 'cfg': cfg, 'seed': ctx.seed}
+            try:
+                same = b.exc is None and pk.layout(b.wire) == pk.exp_layout(exp)
+            except st.TlvError:
+                same = False
+            if not same:
+                if not getattr(ctx, '_c02_skip_noted', False):
+                    ctx._c02_skip_noted = True
+                    ctx.note('B: skipping configurations whose wire does not have the reference layout (C01 reports them)')
                 continue
             ver, ok = check_ranges(ctx, cfg, exp, b, pool, rep)
             n_cfg += 1
@@ -426,7 +370,7 @@ def run(ctx):
                     ctx.nt(['B', cfg, 'edit', e['lvl'], e['op'], e['i']])
                 ctx.nt(['B', cfg, 'truncate'])
                 ctx.sample({'kind': 'B-tampered-config', 'cfg': cfg, 'regions': exp['regions'], 'tampered_wires': k}, limit=2)
-            elif size > 400 and (ctx.rng.random() < ctx.pick(0.15, 0.5)):
+            elif size > 400 and (ctx.rng.random() < ctx.pick(0.1, 0.4)):
                 # large wires: every TL byte region boundary, 24 random offsets, a few truncations
                 pos = set()
                 for rg in exp['regions']:
@@ -444,7 +388,7 @@ def run(ctx):
             n_cfg, n_t, dict(('%s/%s' % k, v) for k, v in sorted(used.items()))))
     if 'C' in ctx.stages:
         recs = []
-        n = ctx.pick(500, 8000)
+        n = ctx.pick(300, 4000)
         tries = 0
         while len(recs) < n and tries < n * 4:
             tries += 1
@@ -491,7 +435,7 @@ def record(ctx, cfg, pool):
         return None
     if None in (sg, dg) or (signed(cfg) and sv is None) or (need_digest(cfg) and dv is None):
         raise MachineryError('could not locate the parser\'s views inside the wire')
-    rep = {'kind': 'cfg', 'cfg': cfg}
+    rep = {'kind': 'cfg', 'cfg': cfg, 'seed': ctx.seed}
     if signed(cfg) and b.rec.covered != pk.slices(wire, sg):
         ctx.violation('C02/%s/signed-range/signer-input-vs-parser' % ('make_interest' if cfg['kind'] == 'interest' else 'make_data'),
                       'bytes handed to the signer differ from the bytes the parser reports as covered', rep)
@@ -503,8 +447,8 @@ def record(ctx, cfg, pool):
            'dv': dv if need_digest(cfg) else [], 'tampers': []}
     ver = Verifier(cfg, b, pool) if signed(cfg) else None
     size = len(wire)
-    pos = {ctx.rng.randrange(size) for _ in range(10)} | {ctx.rng.randrange(min(size, 120)) for _ in range(6)} \
-        | {size - 1 - ctx.rng.randrange(min(size, 80)) for _ in range(4)}
+    pos = {ctx.rng.randrange(size) for _ in range(6)} | {ctx.rng.randrange(min(size, 120)) for _ in range(5)} \
+        | {size - 1 - ctx.rng.randrange(min(size, 80)) for _ in range(3)}
     for p in sorted(pos):
         v = ctx.rng.choice([wire[p] ^ 0x01, wire[p] ^ 0x80, (wire[p] + ctx.rng.randrange(1, 256)) % 256])
         o = outcome(cfg, ver, wire[:p] + bytes([v]) + wire[p + 1:])
@@ -514,34 +458,46 @@ def record(ctx, cfg, pool):
 
 
 def replay(ctx, path):
+    """Reproduce with the real code only: the stored wire (signatures are randomised, so the original bytes are
+    kept), the stored edit, the run's key pool rebuilt from the stored seed."""
+    import random
     with open(path) as f:
         obj = json.load(f)
-    pool = pk.Pool(ctx.rng)
     if obj.get('kind') == 'trace':
         rej = pk.judge(ctx, 'NdnPacketsTrace', 'NdnPacketsTrace.cfg', [obj['rec']], 'c02-replay')
-        print('recorded packet:', 'rejected %s' % rej if rej else 'accepted')
+        print('recorded packet:', 'rejected by TLC %s' % rej if rej else 'accepted by TLC')
         return 1 if rej else 0
     cfg = obj['cfg']
     print('cfg:', json.dumps(cfg))
-    lines = None
-    # expectation for this single configuration from TLC (NdnPacketsTrace cannot emit tables; use the generator
-    # restricted through a one-record judge is not possible) -> recompute ranges by replaying with stage-B tables
-    b = pk.build(cfg, ctx.rng, pool)
-    if b.exc is not None:
-        print('raised:', repr(b.exc))
-        return 0
-    print('wire:', b.wire[:200].hex())
+    rng = random.Random(obj.get('seed', ctx.seed))
+    pool = pk.Pool(rng)
+    if obj.get('wire'):
+        wire = bytes.fromhex(obj['wire'])
+        b = pk.Built()
+        b.wire = wire
+        try:
+            si = parse(cfg, wire)[3].signature_info
+            b.kl = [bytes(c) for c in si.key_locator.name] if si is not None and si.key_locator is not None else None
+        except Exception as e:  # noqa
+            print('the stored wire does not parse:', repr(e))
+            b.kl = None
+    else:
+        b = pk.build(cfg, rng, pool)
+        if b.exc is not None:
+            print('raised:', repr(b.exc))
+            return 0
+    print('wire:', b.wire[:300].hex())
     ver = Verifier(cfg, b, pool) if signed(cfg) else None
+    print('untouched wire ->', outcome(cfg, ver, b.wire))
     e = obj.get('edit')
-    if e:
-        if e['op'] == 'substitute':
-            t = b.wire[:e['pos']] + bytes([e['value']]) + b.wire[e['pos'] + 1:]
-        elif e['op'] == 'truncate':
-            t = b.wire[:e['len']]
-        else:
-            t = apply_edit(b.wire, e)
-        o = outcome(cfg, ver, t)
-        print('edit:', e, '\noutcome:', o)
-        return 1 if (o['sigacc'] or o['digacc'] == 'acc') else 0
-    print('outcome of the untouched wire:', outcome(cfg, ver, b.wire))
-    return 0
+    if not e:
+        return 0
+    if e['op'] == 'substitute':
+        t = b.wire[:e['pos']] + bytes([e['value']]) + b.wire[e['pos'] + 1:]
+    elif e['op'] == 'truncate':
+        t = b.wire[:e['len']]
+    else:
+        t = apply_edit(b.wire, e)
+    o = outcome(cfg, ver, t)
+    print('edit:', e, '\nedited wire:', t[:300].hex(), '\n->', o)
+    return 1 if (o['sigacc'] or o['digacc'] == 'acc') else 0
